@@ -7,6 +7,7 @@
 #include "common/runner.hpp"
 #include "common/graphs.hpp"
 #include "common/bgl.hpp"
+#include "common/bigref.hpp"
 #include <boost/graph/filtered_graph.hpp>      // before the library: its qualified boost:: calls only see what is declared by then
 #include <parmcb/config.hpp>
 #include <parmcb/sptrees.hpp>
@@ -236,14 +237,13 @@ static void greedy_check(vr::Runner &R, const char *site, const vg::EdgeList &el
 // c triangles are independent and no cycle has fewer than 3 edges, so the minimum cycle basis weighs exactly 3c - an oracle
 // that needs no reference computation. Only the FVS builder is run (one tree, rooted at the hub; Horton / ISO would build
 // D trees). Candidates are validated as edge SETS (the 64-bit masks of the small-graph oracle do not apply).
-static void check_fvs_collection_hub(vr::Runner &R, const vg::EdgeList &el, const std::vector<double> &w, B &b) {
-    const char *site = "FVSCyclesBuilder";
+template<class Builder>
+static void check_collection_big(vr::Runner &R, const char *site, const vg::EdgeList &el, const std::vector<double> &w, B &b, double optimum) {
     int dim = vg::cycle_space_dim(el);
-    for (double x : w) if (x != 1) { fprintf(stderr, "collections-hub needs unit weights\n"); exit(2); }
     WeightMap wm = boost::get(boost::edge_weight, b.g);
     std::vector<Tree> trees;
     std::vector<parmcb::CandidateCycle<Graph, WeightMap>> cycles;
-    parmcb::detail::FVSCyclesBuilder<Graph, WeightMap> builder;
+    Builder builder;
     builder(b.g, wm, trees, cycles);
     R.count(C_EVAL);
     auto C = [&] { return cs_of(el, w); };
@@ -261,8 +261,9 @@ static void check_fvs_collection_hub(vr::Runner &R, const vg::EdgeList &el, cons
         for (int x : vv_) if (x != root && su.count(x)) { R.violation({site, "cand-not-simple", C(), "root paths to the two endpoints share vertex " + std::to_string(x)}); return; }
         std::vector<int> es = pu; es.insert(es.end(), pv.begin(), pv.end()); es.push_back(ei); std::sort(es.begin(), es.end());
         if (std::adjacent_find(es.begin(), es.end()) != es.end()) { R.violation({site, "cand-not-simple", C(), "candidate repeats an edge"}); return; }
-        if ((double) cc.weight() != (double) es.size()) { R.violation({site, "cand-weight", C(), "recorded weight " + vg::fmt_w(cc.weight()) + ", true weight " + std::to_string(es.size())}); return; }
-        cand.push_back({(double) es.size(), es});
+        double tw = 0; for (int x : es) tw += w[x];
+        if ((double) cc.weight() != tw) { R.violation({site, "cand-weight", C(), "recorded weight " + vg::fmt_w(cc.weight()) + ", true weight " + vg::fmt_w(tw)}); return; }
+        cand.push_back({tw, es});
     }
     std::stable_sort(cand.begin(), cand.end(), [](const std::pair<double, std::vector<int>> &a, const std::pair<double, std::vector<int>> &b2) { return a.first < b2.first; });
     std::map<int, std::vector<int>> pivots; double tot = 0;       // sparse GF(2) elimination: pivot = smallest edge index
@@ -273,7 +274,20 @@ static void check_fvs_collection_hub(vr::Runner &R, const vg::EdgeList &el, cons
         if (!v.empty()) { pivots[v[0]] = v; tot += cd.first; }
     }
     if ((int) pivots.size() != dim) { R.violation({site, "collection-rank", C(), "collection of " + std::to_string(cand.size()) + " candidates spans dimension " + std::to_string(pivots.size()) + " of " + std::to_string(dim)}); return; }
-    if (tot != 3.0 * dim) R.violation({site, "collection-not-sufficient", C(), "greedy over the collection gives " + vg::fmt_w(tot) + ", optimum " + std::to_string(3 * dim)});
+    if (tot != optimum) R.violation({site, "collection-not-sufficient", C(), "greedy over the collection gives " + vg::fmt_w(tot) + ", optimum " + vg::fmt_w(optimum)});
+}
+
+// collections-hub: FVS builder, optimum 3 per chord by construction (see above). collections-big: FVS and ISO builders on graphs beyond
+// the 64-bit edge masks of the small-graph oracle (hundreds of vertices: internal size thresholds, trees built by several threads);
+// the optimum comes from the independent Horton reference (bigref.hpp; integer weights, exact).
+static void check_fvs_collection_hub(vr::Runner &R, const vg::EdgeList &el, const std::vector<double> &w, B &b) {
+    for (double x : w) if (x != 1) { fprintf(stderr, "collections-hub needs unit weights\n"); exit(2); }
+    check_collection_big<parmcb::detail::FVSCyclesBuilder<Graph, WeightMap>>(R, "FVSCyclesBuilder", el, w, b, 3.0 * vg::cycle_space_dim(el));
+}
+static void check_collections_big(vr::Runner &R, const vg::EdgeList &el, const std::vector<double> &w, B &b) {
+    double opt = vbig::horton_reference(el, w).total;
+    check_collection_big<parmcb::detail::FVSCyclesBuilder<Graph, WeightMap>>(R, "FVSCyclesBuilder", el, w, b, opt);
+    check_collection_big<parmcb::detail::ISOCyclesBuilder<Graph, WeightMap>>(R, "ISOCyclesBuilder", el, w, b, opt);
 }
 
 static void check_collections(vr::Runner &R, const vg::EdgeList &el, const std::vector<double> &w, B &b, const std::vector<uint64_t> &cyc, int dim) {
@@ -361,6 +375,7 @@ static void run_case(vr::Runner &R, const vg::EdgeList &el, const std::vector<do
         else if (comp == "fvs") { if (g_filtered) check_fvs_filtered(R, el, w, b); else check_fvs(R, el, w, b); }
         else if (comp == "collections") check_collections(R, el, w, b, cyc, dim);
         else if (comp == "collections-hub") check_fvs_collection_hub(R, el, w, b);
+        else if (comp == "collections-big") check_collections_big(R, el, w, b);
         else if (comp == "forest") check_forest(R, el, w, b, "");
     } catch (std::exception &e) { R.violation({comp, "exception", cs_of(el, w), e.what()}); }
 }
